@@ -128,10 +128,18 @@ class PaneBase:
         set_fields = getattr(self, PANE_SET_FIELDS)
         d = {
             field.name: getattr(self, field.name)
-            for field in self.__pane_info__.fields if field.name in set_fields
+            for field in self.__pane_info__.fields if field.init and field.name in set_fields
         }
         d.update(**changes)
-        return self.__class__(**d)
+        new = self.__class__(**d)
+        # fields with init=False are not constructor arguments: a value assigned to one
+        # is carried over, unless __post_init__ has already set it on the new instance
+        new_set = getattr(new, PANE_SET_FIELDS)
+        for field in self.__pane_info__.fields:
+            if not field.init and field.name in set_fields and field.name not in new_set:
+                object.__setattr__(new, field.name, getattr(self, field.name))
+                new_set.add(field.name)
+        return new
 
     @classmethod
     def _converter(cls: t.Type[PaneBaseT], *args: t.Type[Convertible],
